@@ -228,9 +228,11 @@ def need(t, want):
 CAST = r"static_cast<\s*(?:tensor_size_t|int64_t|size_t|int|tinteger|tnominator|tdenominator|std::size_t|uint32_t|uint8_t)\s*>"
 
 
-def K(name, file, anchor, atoms, args, group, props, flags=re.S, pick=0):
+def K(name, file, anchor, atoms, args, group, props, flags=re.S, pick=0, wrap=None):
+    """wrap: optional template with one `{}` into which the captured text is placed before parsing
+    (e.g. "begin + ({})" for the right-hand side of `begin += ...`)"""
     return dict(name=name, file=file, anchor=anchor, atoms=atoms, args=args, group=group, props=props,
-                flags=flags, pick=pick)
+                flags=flags, pick=pick, wrap=wrap)
 
 
 KERNELS = []
@@ -268,6 +270,8 @@ def extract(k):
     expr = ms[k["pick"]].group(1)
     expr = " ".join(expr.split())
     raw = expr
+    if k.get("wrap"):
+        expr = k["wrap"].format(expr)
     for pat, rep in k["atoms"]:
         expr = re.sub(pat, rep, expr)
     for a, b in RENAME.items():
